@@ -128,6 +128,7 @@ let zi (i : int) : z = z_of_int i
 let gen_date () : z = z_of_i64 (Int64.rem (next_u64 ()) date_lim)
 
 let unknown_doc () : doc =
+  if intn 12 = 0 then [] else   (* the five-byte empty document: no type field, so it is skipped *)
   let tail = match intn 3 with
     | 0 -> [(bs "doc", VDoc [(bs "k", VInt32 (zi 1))])]
     | 1 -> [(bs "x", VString (bs "payload"))]
